@@ -21,9 +21,9 @@ func init() {
 				"C01.see (ancestry comparisons on per-creator indexes are non-strict >=; the coordinate merge keeps the larger index), " +
 				"C01.fame (fame is set only for an undecided witness, in a normal (non-coin) round, by a supermajority; COIN_ROUND_FREQ/ROOT_DEPTH are compile-time constants; Famous / decided have a single writer; a decided round stays decided), " +
 				"C01.rr (round-received needs all witnesses of the round decided, every famous witness seeing the event, at least a supermajority of them; first such round only; search starts at round(x)+1), " +
-				"C01.order (the consensus sort reads only Lamport timestamp and signature; Frame.Events is stored sorted), C01.inorder (rounds processed ascending, shared with C02.order), C01.roundonce (a decided round is turned into a block once, also across error exits: a node that delivers a round twice disagrees with its peers at every later index; shared with C02.once), C01.undecided (the search for the round received stops at the first round with undecided fame; it may go on only past a round i at or below the reset point of a fast-forwarded node, tested on i itself; shared with C04.undecided), C01.timestamp (a block's timestamp is a function of the decided round only: the median over the FAMOUS witnesses of the round received, written into the frame by GetFrame and into the block by NewBlock, by nobody else — the set of all witnesses a node happens to have registered differs between nodes; shared with C18.prov), C01.peers (a recorded validator set is never reordered or overwritten in place — by anybody, the HTTP service included: the peer-set hash a node writes into its blocks is computed over that slice; shared with C10.immutable). " +
+				"C01.order (the consensus sort reads only Lamport timestamp and signature; Frame.Events is stored sorted), C01.inorder (rounds processed ascending, shared with C02.order), C01.roundonce (a decided round is turned into a block once, also across error exits: a node that delivers a round twice disagrees with its peers at every later index; shared with C02.once), C01.undecided (the search for the round received stops at the first round with undecided fame; it may go on only past a round i at or below the reset point of a fast-forwarded node, tested on i itself; shared with C04.undecided), C01.timestamp (a block's timestamp is a function of the decided round only: the median over the FAMOUS witnesses of the round received, written into the frame by GetFrame and into the block by NewBlock, by nobody else — the set of all witnesses a node happens to have registered differs between nodes; shared with C18.prov), C01.peers (a recorded validator set is never reordered or overwritten in place — by anybody, the HTTP service included: the peer-set hash a node writes into its blocks is computed over that slice; shared with C10.immutable), C01.sticky (WitnessesDecided consults the recorded flag before anything else can make it answer false, on every return; shared with C04.sticky). " +
 				"NOT covered: correctness of the voting scheme itself, the coin, that `break VOTE_LOOP` is order-independent, LRU eviction of RoundInfo objects."},
-		Rules: []ruleFunc{c01thr, c01pair, c01see, c01fame, c01rr, c01order, func(p *Prog, r *Report) { c02orderAs(p, r, "C01.inorder") }, func(p *Prog, r *Report) { onceRule(p, r, "C01.roundonce") }, c01peers, func(p *Prog, r *Report) { undecidedSkipRule(p, r, "C01.undecided") }, func(p *Prog, r *Report) { timestampRule(p, r, "C01.timestamp") }, func(p *Prog, r *Report) { mapPickRule(p, r, "C01.mappick", consensusFuncs) }, func(p *Prog, r *Report) { memberRule(p, r, "C01.member") }},
+		Rules: []ruleFunc{c01thr, c01pair, c01see, c01fame, c01rr, c01order, func(p *Prog, r *Report) { c02orderAs(p, r, "C01.inorder") }, func(p *Prog, r *Report) { onceRule(p, r, "C01.roundonce") }, c01peers, func(p *Prog, r *Report) { undecidedSkipRule(p, r, "C01.undecided") }, func(p *Prog, r *Report) { timestampRule(p, r, "C01.timestamp") }, func(p *Prog, r *Report) { mapPickRule(p, r, "C01.mappick", consensusFuncs) }, func(p *Prog, r *Report) { memberRule(p, r, "C01.member") }, func(p *Prog, r *Report) { stickyRule(p, r, "C01.sticky") }},
 	})
 	register(&propDef{
 		ID: "C04", NeedCG: true,
@@ -32,8 +32,9 @@ func init() {
 				"C04.sort (SortedFrameEvents.Less orders by Lamport timestamp first, with <, tie-break only on equality), " +
 				"C04.batch (block transactions / internal transactions are the in-order concatenation over frame.Events of each event's own slice; frame events are createFrameEvent(h) for exactly the ReceivedEvents of the frame's round; ReceivedEvents is appended only under the round-received action), " +
 				"C04.once (an event leaves the undetermined queue iff it was received; the queue is replaced by the remainder on the success exit; only InsertEvent appends to it; a committed round is never processed again). " +
+				"C04.sticky (a round recorded as decided stays decided: WitnessesDecided consults the recorded flag before anything can make it answer false; shared with C01.sticky), C04.framedecided (Hashgraph.GetFrame computes AND stores; every call is for the round of an existing block, the last consensus round, or a round just found decided, and a pending round is marked Decided only after WitnessesDecided of that round answered true — a frame stored early would be what ProcessDecidedRounds commits later, without the events received since). " +
 				"NOT decided: monotonicity of round-received along ancestry for actual DAGs (a theorem about lastAncestors maintenance, partly covered by C01.see)."},
-		Rules: []ruleFunc{c04lamport, c04sort, c04batch, c04once, func(p *Prog, r *Report) { onceRule(p, r, "C04.roundonce") }, func(p *Prog, r *Report) { undecidedSkipRule(p, r, "C04.undecided") }, func(p *Prog, r *Report) { submitCopyRule(p, r, "C04.copy") }},
+		Rules: []ruleFunc{c04lamport, c04sort, c04batch, c04once, func(p *Prog, r *Report) { onceRule(p, r, "C04.roundonce") }, func(p *Prog, r *Report) { undecidedSkipRule(p, r, "C04.undecided") }, func(p *Prog, r *Report) { submitCopyRule(p, r, "C04.copy") }, func(p *Prog, r *Report) { stickyRule(p, r, "C04.sticky") }, func(p *Prog, r *Report) { frameDecidedRule(p, r, "C04.framedecided") }},
 	})
 }
 
@@ -1423,4 +1424,256 @@ func onlyLenOfGetter(v ssa.Value, getter string) bool {
 		}
 	}
 	return false
+}
+
+/* ---------- C01.sticky / C04.sticky / C03.sticky ---------- */
+
+// stickyRule: a round whose fame was recorded as decided stays decided. WitnessesDecided may
+// return only (a) knowing that the recorded flag was false on entry, or (b) knowing it true and
+// returning true; and nothing else clears the flag.
+func stickyRule(p *Prog, r *Report, rule string) {
+	r.Rule(rule, 2, "RoundInfo.WitnessesDecided: every return is reached either with the recorded 'decided' flag known false on entry, or with it known true and the result true; the flag is written only there")
+	fn := p.Func(HG, "RoundInfo", "WitnessesDecided")
+	fD := p.Field(HG, "RoundInfo", "decided")
+	if fn == nil || fD == nil || len(fn.Params) == 0 {
+		r.Anchor(rule, "RoundInfo.WitnessesDecided / RoundInfo.decided")
+		return
+	}
+	var stores []ssa.Instruction
+	for _, w := range p.writersOf(fD) {
+		if w.Fn == fn {
+			stores = append(stores, w.Instr)
+		}
+	}
+	// initial load: a read of the receiver's flag that no write in this function can precede
+	initialLoad := func(v ssa.Value) bool {
+		v = unwrap(v)
+		fv, base := fieldOf(v)
+		if fv != fD || base == nil || unwrap(base) != ssa.Value(fn.Params[0]) {
+			return false
+		}
+		in, ok := v.(ssa.Instruction)
+		if !ok {
+			return false
+		}
+		for _, s := range stores {
+			if canFollow(s, in) {
+				return false
+			}
+		}
+		return true
+	}
+	qT := func(l Lit) bool { return l.Pos && !l.Nil && initialLoad(l.V) }
+	qF := func(l Lit) bool { return !l.Pos && !l.Nil && initialLoad(l.V) }
+	preds := []Pred{qT, qF}
+	// the flag is rewritten only where it is known false: a later read of it is still the entry value when that was true
+	storesGuarded := true
+	for _, s := range stores {
+		if g, _ := p.allPaths(s, preds, func(m uint32) bool { return m&2 != 0 }); !g {
+			storesGuarded = false
+		}
+	}
+	n, okAll, where := 0, true, p.pos(fn.Pos())
+	for _, b := range fn.Blocks {
+		if len(b.Instrs) == 0 || (b.Index != 0 && len(b.Preds) == 0) {
+			continue
+		}
+		ret, ok := b.Instrs[len(b.Instrs)-1].(*ssa.Return)
+		if !ok {
+			continue
+		}
+		for _, rp := range retPointsOf(ret, 0) {
+			n++
+			v := unwrap(rp.val)
+			isTrue := false
+			if c, isC := v.(*ssa.Const); isC && c.Value != nil && c.Value.Kind() == constant.Bool && constant.BoolVal(c.Value) {
+				isTrue = true
+			}
+			if initialLoad(v) {
+				// returning the recorded flag itself: true whenever it was true
+				continue
+			}
+			if fv, base := fieldOf(v); fv == fD && base != nil && unwrap(base) == ssa.Value(fn.Params[0]) && storesGuarded {
+				isTrue = true
+			}
+			g, _ := p.holdsAtRet(rp, preds, func(m uint32) bool { return m&2 != 0 || (m&1 != 0 && isTrue) })
+			if !g {
+				okAll = false
+				where = p.ipos(ret)
+			}
+		}
+	}
+	r.Check(okAll && n > 0, rule, "WitnessesDecided:decided-stays-decided", where, fnName(fn),
+		"every return knows the recorded flag false, or knows it true and returns true",
+		"WitnessesDecided can return without having consulted the recorded 'decided' flag (or returns something other than true when it is set): a round already acted upon as decided can become undecided again when a late witness is inserted, and nodes that decided it at different times diverge")
+	okW := true
+	whereW := p.pos(fn.Pos())
+	for _, w := range p.writersOf(fD) {
+		if w.Fn != fn && !w.Fresh {
+			okW = false
+			whereW = p.ipos(w.Instr)
+		}
+	}
+	r.Check(okW, rule, "RoundInfo.decided:single-writer", whereW, fnName(fn), "the flag is written only by WitnessesDecided (and on fresh values)", "the recorded 'decided' flag is written outside WitnessesDecided: a decided round can be reopened")
+}
+
+/* ---------- C04.framedecided / C13.framedecided / C02.framedecided ---------- */
+
+// frameDecidedRule: Hashgraph.GetFrame computes a frame AND stores it; every later request for the
+// round (ProcessDecidedRounds first of all) gets the stored one. It may therefore be asked only for
+// a round whose content is final: the round of an existing block, or a round just found decided.
+func frameDecidedRule(p *Prog, r *Report, rule string) {
+	r.Rule(rule, 2, "every call of Hashgraph.GetFrame (which persists what it computes) is made for the round of an existing block, for the last consensus round, or after RoundInfo.WitnessesDecided of that very round answered true")
+	gf := p.Func(HG, "Hashgraph", "GetFrame")
+	if gf == nil {
+		r.Anchor(rule, "Hashgraph.GetFrame")
+		return
+	}
+	fPRD := p.Field(HG, "PendingRound", "Decided")
+	upd := p.Func(HG, "PendingRoundsCache", "Update")
+	if fPRD == nil || upd == nil {
+		r.Anchor(rule, "PendingRound.Decided / PendingRoundsCache.Update")
+		return
+	}
+	sites := callSitesOf(gf)
+	n := 0
+	for _, cs := range sites {
+		c, ok := cs.(*ssa.Call)
+		if !ok {
+			r.Fail(rule, "GetFrame:caller", p.ipos(cs), fnName(cs.Parent()), "GetFrame is started by go/defer")
+			continue
+		}
+		fn := c.Parent()
+		n++
+		arg := lastArg(c)
+		final := flowsFromLocal(arg, func(x ssa.Value) bool {
+			if cc, idx, isC := isCallTo(x, named(HG+".Block.RoundReceived")); isC && cc != nil && idx <= 0 {
+				return true
+			}
+			if fv, _ := fieldOf(x); fv != nil && refName(fv) == "LastConsensusRound" {
+				return true
+			}
+			// *h.LastConsensusRound, possibly through a local copy of the pointer
+			if u, isU := x.(*ssa.UnOp); isU && u.Op == token.MUL {
+				if _, isPtr := u.X.Type().Underlying().(*types.Pointer); isPtr {
+					return flowsFromLocal(u.X, func(y ssa.Value) bool {
+						fv, _ := fieldOf(y)
+						return fv != nil && refName(fv) == "LastConsensusRound"
+					})
+				}
+			}
+			return false
+		})
+		if !final {
+			// ... or the pending-round record of that round is marked Decided (see the provenance below)
+			_, argBase := fieldOf(arg)
+			qMarked := func(l Lit) bool {
+				if !l.Pos || l.Nil || argBase == nil {
+					return false
+				}
+				fv, base := fieldOf(l.V)
+				return fv != nil && fv == fPRD && base != nil && unwrap(base) == unwrap(argBase)
+			}
+			final, _ = p.allPaths(c, []Pred{witnessesDecidedOf(arg), qMarked}, func(m uint32) bool { return m != 0 })
+		}
+		r.Check(final, rule, "GetFrame:only-for-a-final-round", p.ipos(c), fnName(fn), "the round is that of a block, the last consensus round, or was just found decided",
+			"Hashgraph.GetFrame is called for a round that is not known to be decided: the partial frame it computes is stored, ProcessDecidedRounds later takes the stored frame instead of the real one, and the events of that round are never committed although their descendants are")
+	}
+	if n == 0 {
+		r.Fail(rule, "GetFrame:only-for-a-final-round", p.pos(gf.Pos()), fnName(gf), "no call site of Hashgraph.GetFrame found")
+	}
+	// provenance of the Decided mark: set only by PendingRoundsCache.Update, which is given only
+	// rounds appended after WitnessesDecided of that round answered true
+	okMark, whereM, detail := true, p.pos(upd.Pos()), ""
+	for _, w := range p.writersOf(fPRD) {
+		if w.Fn == upd {
+			continue
+		}
+		if c, isC := w.Val.(*ssa.Const); isC && c.Value != nil && c.Value.Kind() == constant.Bool && !constant.BoolVal(c.Value) {
+			continue
+		}
+		okMark, whereM, detail = false, p.ipos(w.Instr), "PendingRound.Decided is set outside PendingRoundsCache.Update"
+	}
+	nApp := 0
+	for _, cs := range callSitesOf(upd) {
+		arg := lastArg(cs)
+		seen := map[ssa.Value]bool{}
+		var walk func(v ssa.Value)
+		walk = func(v ssa.Value) {
+			v = unwrap(v)
+			if v == nil || seen[v] {
+				return
+			}
+			seen[v] = true
+			switch x := v.(type) {
+			case *ssa.Phi:
+				for _, e := range x.Edges {
+					walk(e)
+				}
+			case *ssa.UnOp:
+				if al, isAl := x.X.(*ssa.Alloc); isAl && x.Op == token.MUL {
+					for _, st := range storedThrough(al) {
+						if st.Addr == ssa.Value(al) {
+							walk(st.Val)
+						}
+					}
+					return
+				}
+				okMark, whereM, detail = false, p.ipos(cs), "the list given to Update is not built locally"
+			case *ssa.Slice:
+				if al, isAl := x.X.(*ssa.Alloc); isAl {
+					if len(storedThrough(al)) == 0 {
+						return // empty literal
+					}
+				}
+				walk(x.X)
+			case *ssa.Alloc, *ssa.MakeSlice:
+			case *ssa.Const:
+			case *ssa.Call:
+				bi, isB := x.Call.Value.(*ssa.Builtin)
+				if !isB || bi.Name() != "append" || len(x.Call.Args) != 2 {
+					okMark, whereM, detail = false, p.ipos(x), "the list given to Update comes from a call other than append"
+					return
+				}
+				walk(x.Call.Args[0])
+				sl, isSl := x.Call.Args[1].(*ssa.Slice)
+				var al *ssa.Alloc
+				if isSl {
+					al, _ = sl.X.(*ssa.Alloc)
+				}
+				if al == nil {
+					okMark, whereM, detail = false, p.ipos(x), "a whole list is appended to the decided rounds"
+					return
+				}
+				for _, st := range storedThrough(al) {
+					nApp++
+					if g, _ := p.allPaths(x, []Pred{witnessesDecidedOf(st.Val)}, all(1)); !g {
+						okMark, whereM, detail = false, p.ipos(x), "a round is listed as decided without WitnessesDecided of that round having answered true"
+					}
+				}
+			default:
+				okMark, whereM, detail = false, p.ipos(cs), "the list given to Update is not built locally"
+			}
+		}
+		walk(arg)
+	}
+	if okMark && nApp == 0 {
+		okMark, detail = false, "no round is ever marked decided"
+	}
+	r.Check(okMark, rule, "PendingRound.Decided:only-after-WitnessesDecided", whereM, fnName(upd), "a pending round is marked decided only after WitnessesDecided of that round answered true", detail+": ProcessDecidedRounds would compute, store and commit the frame of a round whose fame is still open")
+}
+
+// witnessesDecidedOf: the literal "WitnessesDecided() of the RoundInfo fetched for round v answered true".
+func witnessesDecidedOf(v ssa.Value) Pred {
+	return func(l Lit) bool {
+		if !l.Pos || l.Nil {
+			return false
+		}
+		wd, idx, isC := isCallTo(l.V, named(HG+".RoundInfo.WitnessesDecided"))
+		if !isC || idx > 0 {
+			return false
+		}
+		rv := roundArgOf(recvOf(wd), storeM("GetRound"))
+		return rv != nil && sameRoundExpr(rv, v)
+	}
 }
